@@ -2146,6 +2146,7 @@ func runC16(res *hx.Result, rng *hx.Rng, tier string, outdir string) {
 	cf.Flush()
 	c16Shared(res, rng, map[bool]int{false: 12, true: 60}[tier == "thorough"])
 	c16HookReenters(res, rng, map[bool]int{false: 6, true: 30}[tier == "thorough"])
+	c16Clients(res, rng, map[bool]int{false: 24, true: 240}[tier == "thorough"])
 	rounds := 40
 	if tier == "thorough" {
 		rounds = 400
